@@ -8,14 +8,15 @@ python3 - <<'PY'
 import sys, os
 sys.path.insert(0, os.getcwd())
 from vlib import common as C
-ok, log = C.coq_build()
+props = open(os.path.join(C.VERIF, "tools", "integrated.txt")).read().split()
+ok, log = C.coq_build(targets=["theories/Props/%s.vo" % p for p in props])
 print(log[-3000:])
 if not ok:
     sys.exit("coq build failed")
 bad = 0
-for d in sorted(os.listdir(os.path.join(C.HARNESS, "cmd"))):
-    b, l = C.go_build(d)
-    print("harness", d, "ok" if b else "FAILED\n" + l[-2000:])
+for p in props:
+    b, l = C.go_build(p.lower())
+    print("harness", p, "ok" if b else "FAILED\n" + l[-2000:])
     bad += b is None
 sys.exit(1 if bad else 0)
 PY
